@@ -35,6 +35,13 @@ Proof.
   - eapply run_at_inv; eauto. intros x h' res Rx Hk Okr. cbv beta in Hk. rewrite fueled_eq in Hk.
     cbn in PO. apply Z.leb_le in PO. eapply (roll_inv (st_root s)); eauto.
   - eapply run_at_inv; eauto. intros x h' res Rx Hk Okr. cbv beta in Hk. eapply eqcopy_inv; eauto.
+  - (* OSetRepCountQ: the value is validated before anything is stored *)
+    eapply run_at_inv; eauto. intros x h' res Rx Hk Okr. cbv beta in Hk. unfold set_repetition_count_q in Hk.
+    destruct (Qle_bool _ rep_eps).
+    + eapply set_repetition_definition_inv; [exact I| | |]; eauto.
+    + unfold raise in Hk. inversion Hk; subst. exact I.
+  - (* OReject: nothing happens *)
+    eapply run_at_inv; eauto. intros x h' res Rx Hk Okr. cbv beta in Hk. unfold raise in Hk. inversion Hk; subst. exact I.
 Qed.
 
 Lemma history_all : forall ops s,
